@@ -74,6 +74,8 @@ def cid_table(fmt, rejected=False):
     if not rejected:
         rows.append(["C", "id must be unique", "IsUnique", "id"])
         rows.append(["C", "only a few names", "DistinctCount", "name <= 4"])
+        # a check that fails on a data set without rows: must not turn "cannot be read" into "rejected"
+        rows.append(["C", "at least one id", "DistinctCount", "id >= 1"])
     return rows
 
 
@@ -208,7 +210,7 @@ def expectation(cid_state, verdicts):
     rejected = sorted(set(k for k, v in verdicts if v == "rejected"))
     names = {"M": "missing", "D": "directory", "F": "field", "U": "unique"}
     unreadable_text = "data-" + ("missing" if "M" in unreadable else "directory")  # one bucket per root cause
-    rejected_text = "rejected-by-" + (names[rejected[0]] if rejected else "")  # one bucket per root cause
+    rejected_text = "rejected-by-" + (names.get(rejected[0], "end-check") if rejected else "")  # per root cause
     if cid_state in ("missing", "directory"):
         return {3}, "cid-" + cid_state
     if cid_state == "rejected":
